@@ -211,7 +211,7 @@ def parse_assumptions(out):
 
 
 PRIMITIVE_PREFIXES = ("PrimFloat.", "Uint63.", "PrimInt63.", "FloatOps.", "Float64", "Coq.Floats.PrimFloat.",
-                      "Coq.Numbers.Cyclic.Int63.")
+                      "Coq.Numbers.Cyclic.Int63.", "Coq.Floats.PrimFloat.Leibniz.")
 
 
 def axiom_allowed(name, extra=()):
@@ -333,7 +333,33 @@ class Ctx:
         missing = [t for t in thms if t not in prints and not t.endswith("_example") and not t.startswith("ex_")]
         if missing:
             self.notes.append("theorems in %s without Print Assumptions: %s" % (props_file, missing))
+        if self.tier == "thorough":
+            self._coqchk(props_file)
         return all(o["ok"] for o in self.obligations)
+
+    def _coqchk(self, props_file):
+        """thorough tier: re-check the compiled file and everything it depends on with the
+        independent checker coqchk; -o lists the axioms of all loaded libraries."""
+        mod = "QE." + props_file[:-2].replace("/", ".")
+        rc, out = _run(["coqchk", "-silent", "-o", "-Q", ".", "QE", mod], cwd=COQ, timeout=3000)
+        axioms, flags_ok = [], True
+        sect = None
+        for ln in out.splitlines():
+            m = re.match(r"^\* (.*?):\s*(.*)$", ln)
+            if m:
+                sect = m.group(1)
+                if sect.startswith(("Constants/Inductives relying", "Inductives whose positivity")) and m.group(2).strip() != "<none>":
+                    flags_ok = False
+                continue
+            if sect == "Axioms" and ln.strip():
+                axioms.append(ln.strip())
+        bad = [a for a in axioms if not axiom_allowed(a, self.extra_axioms)
+               and not axiom_allowed(a.split(".")[-1], self.extra_axioms)
+               and not any(a.endswith("." + e) or a == e for e in self.extra_axioms)]
+        self.obligations.append({"name": "coqchk -o %s" % mod, "ok": rc == 0 and flags_ok and not bad,
+                                 "detail": ("rc=%s; non-primitive axioms: %s; unsafe flags clean: %s"
+                                            % (rc, [a for a in axioms if not a.startswith(("Coq.Numbers.Cyclic.Int63.", "Coq.Floats."))] or "none", flags_ok))
+                                           + ("" if rc == 0 else " :: " + out[-600:])})
 
     # -------------------------------------------------------- correspondence in Coq
     def coq_check(self, name, imports, ctype, ok, cases, chunk=400, preamble="", timeout=900):
